@@ -28,12 +28,14 @@ inductive Err
   | lexical | parse | notSupported | analyzer
   | py (e : Py.Exc)
   | fuel
+  /-- the Python code provably never returns on this input (C07 finding; the harness observes a time-out) -/
+  | diverges
   | unmodelled (why : String)
   deriving DecidableEq, Repr, Inhabited
 
 def Err.show : Err → String
   | .lexical => "LEX" | .parse => "PARSE" | .notSupported => "NOTSUP" | .analyzer => "ANALYZER"
-  | .py e => "PY " ++ e.name | .fuel => "FUEL" | .unmodelled w => "UNMODELLED " ++ w
+  | .py e => "PY " ++ e.name | .fuel => "FUEL" | .diverges => "HANG" | .unmodelled w => "UNMODELLED " ++ w
 
 /-- the library's parse-error family (C07) -/
 def Err.inFamily : Err → Bool
